@@ -21,6 +21,14 @@ func showFull(rs []klog.Record, bs []txt.Block, errs []txt.Error) string {
 	return showParse(rs, errs) + " | " + b
 }
 
+func errorMessages(errs []txt.Error) string {
+	out := ""
+	for _, e := range errs {
+		out += e.Code() + "|" + e.Title() + "|" + e.Details() + "|" + e.Message() + "\n"
+	}
+	return out
+}
+
 // forceArrivalOrder makes the workers of the parallel parser deliver their results in the order
 // given by rank (rank[i] = position of batch i), using the add-only hook before the send.
 func forceArrivalOrder(rank []int) func() {
@@ -57,7 +65,9 @@ func init() {
 		p := showFull(prs, pbs, perrs)
 		srs, sbs, serrs := parser.NewSerialParser().Parse(text)
 		q := showFull(srs, sbs, serrs)
-		if p == q {
+		// the messages of the errors must be the same too (they are not part of the printed line,
+		// which is compared with the model)
+		if p == q && errorMessages(perrs) == errorMessages(serrs) {
 			return "same " + p
 		}
 		return "differs " + p
